@@ -47,6 +47,15 @@ ad_val = Function("ad_val", Ref, Int, Ref)
 ad_has_n = Function("ad_has_n", Ref, Int, Str, Bool)
 ad_val_n = Function("ad_val_n", Ref, Int, Str, Ref)
 
+# user callbacks (A7): deterministic functions of their arguments; each invocation may raise
+cb1 = Function("cb1", Ref, Ref, Bool)                  # truth value of f(a)
+cb2 = Function("cb2", Ref, Ref, Ref, Bool)             # truth value of f(a, b)
+cb1_raises = Function("cb1_raises", Ref, Ref, Bool)
+cb2_raises = Function("cb2_raises", Ref, Ref, Ref, Bool)
+cbv1 = Function("cbv1", Ref, Ref, Ref)                 # value of f(a) for value-returning callbacks (rfunc, sort key ...)
+delnth = Function("delnth", RSeq, Int, RSeq)           # List.eraseIdx (del s[i], 0 <= i < len s)
+minus = Function("minus", RSeq, RSeq, RSeq)            # List.diff: remove one occurrence of each element of the second list
+
 _counter = itertools.count()
 
 
@@ -72,7 +81,7 @@ def cat(*parts):
         if _is_empty(p):
             continue
         if _is_concat(p):
-            ps.extend(p.children())
+            ps.extend(_flat(p))
         else:
             ps.append(p)
     if not ps:
@@ -80,6 +89,16 @@ def cat(*parts):
     if len(ps) == 1:
         return ps[0]
     return Concat(*ps)
+
+
+def _flat(s):
+    """parts of a (possibly nested) concatenation, left to right"""
+    if not _is_concat(s):
+        return [s]
+    out = []
+    for c in s.children():
+        out.extend(_flat(c))
+    return out
 
 
 def seq_of(*xs):
@@ -127,9 +146,14 @@ def ite(c, a, b):
     return If(c, a, b)
 
 
+CONCRETE = {}         # ast id -> constant standing for a distinct concrete object (run-time monitor); keeps them alive
+
+
 def eq(a, b):
     if a.eq(b):
         return BoolVal(True)
+    if CONCRETE and a.get_id() in CONCRETE and b.get_id() in CONCRETE:
+        return BoolVal(False)
     return a == b
 
 
@@ -190,7 +214,7 @@ def Cnt(s, x):
     if _is_unit(s):                       # count_singleton
         return b2i(eq(s.arg(0), x))
     if _is_concat(s):                     # count_append
-        return z3.Sum([Cnt(p, x) for p in s.children()])
+        return z3.Sum([Cnt(p, x) for p in _flat(s)])
     if _is_ite(s):
         return ite(s.arg(0), Cnt(s.arg(1), x), Cnt(s.arg(2), x))
     if _is_uf(s, rem1):                   # count_erase
@@ -201,6 +225,10 @@ def Cnt(s, x):
         return ite(eq(x, y), IntVal(0), Cnt(a, x))
     if _is_uf(s, dedup):                  # count_dedup
         return b2i(Cnt(s.arg(0), x) >= 1)
+    if _is_uf(s, minus):                  # count_diff
+        a, p_ = s.arg(0), s.arg(1)
+        ca, cp = Cnt(a, x), Cnt(p_, x)
+        return ite(ca >= cp, ca - cp, IntVal(0))
     if _is_uf(s, setnth):                 # count_set  (index in range: guaranteed where setnth is built)
         a, i, y = s.arg(0), s.arg(1), s.arg(2)
         return Cnt(a, x) - b2i(eq(Nth(a, i), x)) + b2i(eq(y, x))
@@ -218,7 +246,7 @@ def Len(s):
     if _is_unit(s):
         return IntVal(1)
     if _is_concat(s):
-        return z3.Sum([Len(p) for p in s.children()])
+        return z3.Sum([Len(p) for p in _flat(s)])
     if _is_ite(s):
         return ite(s.arg(0), Len(s.arg(1)), Len(s.arg(2)))
     if _is_uf(s, rem1):                   # length_erase
@@ -226,6 +254,8 @@ def Len(s):
         return Len(a) - b2i(Cnt(a, y) >= 1)
     if _is_uf(s, setnth):                 # length_set
         return Len(s.arg(0))
+    if _is_uf(s, delnth):                 # length_eraseIdx
+        return Len(s.arg(0)) - 1
     return Length(s)
 
 
@@ -236,7 +266,7 @@ def Rem1(s, y):
     if _is_unit(s):
         return ite(eq(s.arg(0), y), EMPTY(), s)
     if _is_concat(s):                     # erase_append
-        ch = s.children()
+        ch = _flat(s)
         head, last = cat(*ch[:-1]), ch[-1]
         return ite(Cnt(head, y) >= 1, cat(Rem1(head, y), last), cat(head, Rem1(last, y)))
     if _is_ite(s):
@@ -251,10 +281,25 @@ def Without(s, y):
     if _is_unit(s):
         return ite(eq(s.arg(0), y), EMPTY(), s)
     if _is_concat(s):                     # filter_append
-        return cat(*[Without(p, y) for p in s.children()])
+        return cat(*[Without(p, y) for p in _flat(s)])
     if _is_ite(s):
         return ite(s.arg(0), Without(s.arg(1), y), Without(s.arg(2), y))
     return without(s, y)
+
+
+def Minus(s, p):
+    """remove one occurrence of each element of p from s, in the order of p  (List.diff)"""
+    if _is_empty(p):
+        return s
+    if _is_unit(p):
+        return Rem1(s, p.arg(0))
+    if _is_concat(p):                     # diff_append
+        ch = _flat(p)
+        if _is_unit(ch[-1]):
+            return Rem1(Minus(s, cat(*ch[:-1])), ch[-1].arg(0))
+    if _is_ite(p):
+        return ite(p.arg(0), Minus(s, p.arg(1)), Minus(s, p.arg(2)))
+    return minus(s, p)
 
 
 def Dedup(s):
@@ -262,7 +307,7 @@ def Dedup(s):
     if _is_empty(s) or _is_unit(s):
         return s
     if _is_concat(s):
-        ch = s.children()
+        ch = _flat(s)
         if _is_unit(ch[-1]):              # dedup_snoc
             head, x = cat(*ch[:-1]), ch[-1].arg(0)
             return ite(Cnt(head, x) >= 1, Dedup(head), cat(Dedup(head), ch[-1]))
@@ -282,7 +327,7 @@ def Nth(s, i):
         if _is_unit(s) and iv == 0:
             return s.arg(0)
         if _is_concat(s):
-            ch = s.children()
+            ch = _flat(s)
             if iv < len(ch) and all(_is_unit(c) for c in ch[: iv + 1]):
                 return ch[iv].arg(0)
     if _is_ite(s):
@@ -305,7 +350,7 @@ def SetNth(s, i, x):
         return ite(s.arg(0), SetNth(s.arg(1), i, x), SetNth(s.arg(2), i, x))
     if z3.is_int_value(i) and _is_concat(s):
         n = i.as_long()
-        ch = s.children()
+        ch = _flat(s)
         if n < len(ch) and all(_is_unit(c) for c in ch[: n + 1]):
             return cat(*ch[:n], Unit(x), *ch[n + 1:])
     if z3.is_int_value(i) and _is_unit(s) and i.as_long() == 0:
@@ -323,7 +368,7 @@ class Scanner:
     """One-pass, incremental classification of the subterms of a growing set of formulas (raw C API: the Python
     wrappers of z3 are too slow for the term sizes produced by explicit heap updates)."""
 
-    CATS = ("cnt", "rem1", "without", "dedup", "setnth", "sub", "nth", "ref")
+    CATS = ("cnt", "rem1", "without", "dedup", "setnth", "minus", "sub", "nth", "ref")
 
     def __init__(self):
         self.ctx = z3.main_ctx()
@@ -331,7 +376,7 @@ class Scanner:
         self.seen = set()
         self.keep = []                      # keep the roots alive
         self.ufid = {}
-        for name, f in (("cnt", cnt), ("rem1", rem1), ("without", without), ("dedup", dedup), ("setnth", setnth), ("sub", sub)):
+        for name, f in (("cnt", cnt), ("rem1", rem1), ("without", without), ("dedup", dedup), ("setnth", setnth), ("minus", minus), ("sub", sub)):
             self.ufid[_c.Z3_get_ast_id(self.cref, _c.Z3_func_decl_to_ast(self.cref, f.ast))] = name
         self.ref_sort_id = _c.Z3_get_ast_id(self.cref, _c.Z3_sort_to_ast(self.cref, Ref.ast))
 
@@ -418,6 +463,8 @@ def axioms_for(found, class_axioms, seen_cls):
         new.append(Length(t) <= Length(t.arg(0)))
     for t in found["setnth"]:
         new.append(Length(t) == Length(t.arg(0)))
+    for t in found.get("minus", ()):
+        new.append(Length(t) <= Length(t.arg(0)))
     for t in found["sub"]:
         c = t.arg(0)
         ck = c.get_id()
